@@ -525,3 +525,27 @@ impl GeographicDiversityEnforcer {
         forall|g: GeographicRegion| geo_cnt(self.region_counts@, g) == geo_cnt(o.region_counts@, g)
     }
 }
+
+// =================================================================================================
+// Removal paths of the routing table: DhtCoreEngine::evict_node / handle_node_failure (C13 clause "removing an
+// admitted node -- from the routing table by failure or eviction -- gives its slots back"). Await-erased like
+// add_node: the routing table and the two enforcers are parameters. What the node was admitted with is an
+// uninterpreted fact about its table entry (its address parses to an IP whose analysis is `an` / whose region is
+// `g`): a repair would establish it by looking the entry up before removing it.
+// =================================================================================================
+pub uninterp spec fn admitted_with(table: KademliaRoutingTable, id: NodeId, an: UnifiedIPAnalysis) -> bool;
+pub uninterp spec fn admitted_region(table: KademliaRoutingTable, id: NodeId) -> Option<GeographicRegion>;
+impl KademliaRoutingTable {
+    // contract verified in unit `bucket` (the peer is no longer listed, nobody else is touched)
+    #[verifier::external_body]
+    pub fn remove_node(&mut self, node_id: &NodeId) { unimplemented!() }
+}
+pub open spec fn slots_returned(post: IPDiversityEnforcer, pre: IPDiversityEnforcer, an: UnifiedIPAnalysis) -> bool {
+    match an {
+        UnifiedIPAnalysis::IPv4(a) => post.v4_removed(&pre, &a),
+        UnifiedIPAnalysis::IPv6(a) => post.v6_removed(&pre, &a),
+    }
+}
+pub open spec fn region_slot_returned(post: GeographicDiversityEnforcer, pre: GeographicDiversityEnforcer, g: GeographicRegion) -> bool {
+    geo_cnt(post.region_counts@, g) == (if geo_cnt(pre.region_counts@, g) > 0 { (geo_cnt(pre.region_counts@, g) - 1) as nat } else { 0nat })
+}
